@@ -86,6 +86,7 @@ def gen_plan(rng, maxlen):
 
     n = rng.randint(max(4, maxlen // 2), maxlen)
     plan.append(construct(0))
+    plan.append({"t": "write", "slot": 0, "net": "rbm_am"})
     while len(plan) < n:
         r = rng.random()
         slot = rng.choice(sorted(states))
@@ -332,7 +333,7 @@ def fixed_cases():
 
 def gen_cases(ctx, thorough, ncases=None):
     maxlen = 40 if thorough else 12
-    n = ncases if ncases is not None else (160 if thorough else 45)
+    n = ncases if ncases is not None else (400 if thorough else 120)
     for k in range(n):
         yield {"plan": gen_plan(ctx.rng, maxlen), "tseed": ctx.rng.randrange(1, 2 ** 31)}
 
